@@ -411,4 +411,35 @@ def cartChangePitchSeq : List (Rat × Rat) → G → Option G
   | [], g => some g
   | p :: ps, g => (cartChangePitch p.1 p.2 g).bind (cartChangePitchSeq ps)
 
+/-! ### in-place mutation of a live grid (changePitch, offset setter, backUp / restoreBackup) -/
+
+/-- the mutators of a live `StructuredGrid` that the property's round-trip clause must survive -/
+inductive Mut where
+  | hexPitch (s3 p : Rat)        -- HexGrid.changePitch
+  | cartPitch (xw yw : Rat)      -- CartesianGrid.changePitch
+  | setOffset (o : List Rat)     -- `grid.offset = ...`
+  | backUp                       -- StructuredGrid.backUp (chains the previous backup)
+  | restore                      -- StructuredGrid.restoreBackup
+deriving Repr
+
+/-- live grid + the chain of backups (`_backup = (unitSteps, bounds, offset, previous _backup)`) -/
+structure GS where
+  g : G
+  backups : List (Steps × List (Option (List Rat)) × List Rat)
+
+/-- one mutation; `none` = the call raises (e.g. `restoreBackup` without a backup: unpacking `None`) -/
+def applyMut (gs : GS) : Mut → Option GS
+  | .hexPitch s3 p => (hexChangePitch s3 p gs.g).map (fun g' => { gs with g := g' })
+  | .cartPitch xw yw => (cartChangePitch xw yw gs.g).map (fun g' => { gs with g := g' })
+  | .setOffset o => some { gs with g := { gs.g with offset := o } }
+  | .backUp => some { gs with backups := (gs.g.steps, gs.g.bounds, gs.g.offset) :: gs.backups }
+  | .restore =>
+    match gs.backups with
+    | [] => none
+    | (st, bd, off) :: rest => some { g := { gs.g with steps := st, bounds := bd, offset := off }, backups := rest }
+
+def applyMuts : GS → List Mut → Option GS
+  | gs, [] => some gs
+  | gs, m :: ms => (applyMut gs m).bind (fun gs' => applyMuts gs' ms)
+
 end ArmiVerif.Grid
